@@ -363,10 +363,26 @@ pub fn run_history<Q: QueueApi>(
                     break;
                 }
                 st.m = Model::from_snap(&s);
-                if matches!(reports.last().map(|r| r.viol.monitor), Some("M-ORDER") | Some("M-RET-extreme") | Some("M-DRAIN")) {
+                let last_mon = reports.last().map(|r| r.viol.monitor);
+                let order_err = if st.order_suspended {
+                    None
+                } else {
+                    match Q::KIND {
+                        Kind::Pq => s.order_max(),
+                        Kind::Dpq => s.order_minmax(),
+                    }
+                    .err()
+                };
+                if let (Some(d), false) = (&order_err, matches!(last_mon, Some("M-ORDER"))) {
+                    // the same operation also left the order broken (a monitor evaluated earlier fired
+                    // first): say so against this operation, not against whatever happens to come next
+                    let mon = Mon { kind: Q::KIND, opname: op.name(), extra: op.extra_props() };
+                    reports.push(Report { viol: mon.order(d.clone()), step, history: hist.clone() });
+                }
+                if order_err.is_some() || matches!(last_mon, Some("M-ORDER") | Some("M-RET-extreme") | Some("M-DRAIN")) {
                     // the order is broken. Observe its consequence for sorted consumption right away
                     // (a different property), then stop judging the order until a rebuild
-                    if reports.last().map(|r| r.viol.monitor) != Some("M-DRAIN") {
+                    if last_mon != Some("M-DRAIN") {
                         st.order_suspended = false;
                         if let Ok(Err(v)) = catch_unwind(AssertUnwindSafe(|| st.exec(&Op::SortedCheck))) {
                             let mut h = hist.clone();
